@@ -1,7 +1,7 @@
 #!/bin/bash
 # tools/try_seed.sh <worktree> <seed-name> <ID> [<ID>...]
 # Confirms a seeded change (tests pass with it; demo fails with it and passes without it), then applies it to
-# /repo's working tree, runs the given checks (quick tier) and reverts /repo. Copies the material to /verif/seeded/<seed-name>/.
+# a clean scratch worktree of /repo, runs the given checks (quick tier) against it (VERIF_REPO) and removes the worktree. Copies the material to /verif/seeded/<seed-name>/.
 set -u
 export GOFLAGS=-mod=mod GOPROXY=off GOSUMDB=off GOTOOLCHAIN=local
 WT="$1"; NAME="$2"; shift 2
@@ -20,13 +20,17 @@ git apply -R "$OUT/patch.diff"
 bash _seeded/demo.sh >/dev/null 2>&1; DEMO_WITHOUT=$?
 git apply "$OUT/patch.diff"
 echo "demo with change: exit $DEMO_WITH (expected != 0); without: exit $DEMO_WITHOUT (expected 0)"
-cd /repo && git apply "$OUT/patch.diff" || { echo "patch does not apply to /repo"; exit 2; }
 RES=""
+# the checks run against a clean scratch worktree carrying only the patch (the agent's worktree also holds its demo
+# files, which a corpus-collecting check such as C12 would pick up): /repo itself is never touched
+CW="$(mktemp -d /tmp/tryseed.XXXXXX)"; rmdir "$CW"
+git -C /repo worktree add -q --detach "$CW" HEAD || exit 2
+git -C "$CW" apply "$OUT/patch.diff" || { echo "patch does not apply to /repo HEAD"; git -C /repo worktree remove --force "$CW"; exit 2; }
 for id in "$@"; do
-  cd /verif && ./run.sh $id quick > "$OUT/check-$id.log" 2>&1; rc=$?
+  cd /verif && VERIF_REPO="$CW" ./run.sh $id quick > "$OUT/check-$id.log" 2>&1; rc=$?
   echo "check $id: exit $rc :: $(grep -m1 '^violation:' "$OUT/check-$id.log" | cut -c1-260)"
   RES="$RES $id=$rc"
 done
-git -C /repo checkout -- . ; git -C /repo status --short | head -3
+git -C /repo worktree remove --force "$CW"; git -C /repo worktree prune
 git -C /verif checkout -- evidence 2>/dev/null   # evidence written while a seeded change was applied must not be kept
 echo "RESULT $NAME tests=$TESTS_WITH demo_with=$DEMO_WITH demo_without=$DEMO_WITHOUT checks:$RES"
